@@ -516,7 +516,7 @@ class LifeCheckBase(Check):
                 ds["int_X"] = True
         pf = supports_partial_fit(spec)
         ops = []
-        n_ops = n_ops or g.pick([3, 5, 8, 12, 20] + ([30, 30] if self.tier == "thorough" else []))
+        n_ops = n_ops or g.pick([3, 5, 8, 12, 20] + ([30, 30, 60] if self.tier == "thorough" else []))
         cur_d = None
         fault_rate = f.pick([0.0, 0.0, 0.15, 0.4]) if fault_rate is None else fault_rate
         can_fail = spec["kind"] in ("skl_clf", "skl_reg", "skl_normal") or (spec["kind"] == "sliding" and spec["inner"]["kind"] == "skl_clf") or spec["kind"] == "annot_ens"
